@@ -23,7 +23,7 @@ CMDS = [
     ('STORE1+Del', b'STORE 1 +FLAGS (\\Deleted)'),
     ('STORE2+Del.SILENT', b'STORE 2 +FLAGS.SILENT (\\Deleted)'),
     ('STORE*-Del', b'STORE * -FLAGS (\\Deleted)'),
-    ('UIDSTORE102+Seen', b'UID STORE 102 +FLAGS (\\Seen)'),
+    ('UIDSTORE102+Flagged', b'UID STORE 102 +FLAGS (\\Flagged)'),
     ('EXPUNGE', b'EXPUNGE'),
     ('UIDEXPUNGE101', b'UID EXPUNGE 101'),
     ('APPEND', b'APPEND INBOX ' + lit(msg(9))),
@@ -38,7 +38,7 @@ CMDS = [
     ('UIDFETCH1:*', b'UID FETCH 1:* (FLAGS)'),
     ('STORE3Flagged', b'STORE 3 FLAGS (\\Flagged)'),
 ]
-SMALL = ['STORE1+Del', 'STORE2+Del.SILENT', 'STORE*-Del', 'UIDSTORE102+Seen',
+SMALL = ['STORE1+Del', 'STORE2+Del.SILENT', 'STORE*-Del', 'UIDSTORE102+Flagged',
          'EXPUNGE', 'UIDEXPUNGE101', 'APPEND', 'COPY1-INBOX', 'MOVE1-Other',
          'FETCHall', 'SEARCHall', 'UIDSEARCHall', 'NOOP', 'CHECK']
 
